@@ -91,7 +91,7 @@ def main(argv=None):
         if h.expect == "fail":
             if r.status == "failed":
                 if h.finding:
-                    e = C.known_match(h.prop, h.finding)
+                    e = C.known_match(prop, h.finding)
                     if e:
                         known_hit.append((h, h.finding, e))
                         row["verdict"] = "known-finding"
@@ -120,11 +120,11 @@ def main(argv=None):
             else:
                 discharged += 1
                 row["verdict"] = "holds-within-bounds"
-        elif r.status == "failed":
-            real = [f for f in r.failed if "unwinding assertion" not in f["desc"]]
-            unknown = [f for f in real if not C.known_match(h.prop, fail_key(h, f))]
+        elif r.status == "failed" or (r.status == "unwind" and getattr(h, "hang", False)):
+            real = [f for f in r.failed if "unwinding assertion" not in f["desc"] or getattr(h, "hang", False)]
+            unknown = [f for f in real if not C.known_match(prop, fail_key(h, f))]
             for f in real:
-                e = C.known_match(h.prop, fail_key(h, f))
+                e = C.known_match(prop, fail_key(h, f))
                 if e:
                     known_hit.append((h, fail_key(h, f), e))
             if unknown:
@@ -189,6 +189,11 @@ def main(argv=None):
                 confirmed.append((h, rp, unknown, "not replayed (--no-replay)"))
                 continue
             tests, pout = K.concrete_playback(h, d)
+            if not tests and getattr(h, "hang", False) and h.kv.get("hang_domain"):
+                # Kani emits no playback for an exceeded unwinding bound: reconstruct candidates from the harness's
+                # single small symbolic byte (confirmation only -- the solver decided that the bound is exceeded)
+                tests = [f"#[test]\nfn kani_concrete_playback_manual_{v}() {{\n    let concrete_vals: Vec<Vec<u8>> = vec![vec![{v}]];\n"
+                         f"    kani::concrete_playback_run(concrete_vals, {h.name});\n}}\n" for v in range(int(h.kv["hang_domain"]))]
             if not tests:
                 # unwinding / timeouts etc.: cannot produce a concrete input -> inconclusive, never VIOLATION
                 not_reproduced.append((h, "no concrete playback produced"))
@@ -196,7 +201,7 @@ def main(argv=None):
             rep = None
             used = None
             for t in tests[:4]:
-                rep, rout = K.native_replay(h, t)
+                rep, rout = K.native_replay(h, t, timeout=(60 if getattr(h, 'hang', False) else 600))
                 used = t
                 if rep:
                     break
